@@ -137,7 +137,7 @@ PROPS["C05"] = dict(
                 "from a slice. Fragmentations are generated (fixed sizes 1..300, two-way splits, sizes around the 256-byte buffer, random sequences with zero-byte reads) and, "
                 "for each generated stream of up to 700 bytes, every split position and every chunk size is enumerated. Stream types include byte arrays, UUIDs, big numbers, "
                 "complex numbers and pointer structs, and a third of the cases decode into a different, convertible destination type. The whole token x destination matrix of C06 "
-                "(every spelling of every scalar value into 52 destination types, top level and as list element) is additionally decoded byte by byte and with one split at every offset."),
+                "(every spelling of every scalar value into 52 destination types, top level and as list element) is additionally decoded byte by byte and with one split at every offset. Readers that deliver their last bytes together with io.EOF are part of the fragmentations."),
     level_note="A reader that returns (0, nil) for ever is outside io.Reader's contract and not generated (at most 3 in a row). When both sides panic the case is charged to C04, not here.",
     rule=("random: rapid-drawn (stream, truncation, fragmentation, buffer size); every-split: all two-way splits and all fixed chunk sizes of generated streams; boundary: "
           "strings of 1-4 byte characters placed across the 256/512-byte marks. Non-trivial = at least one read boundary fell strictly inside a token span (number, length "
@@ -153,7 +153,7 @@ PROPS["C03"] = dict(
     level_text=("Every generated encoder output must parse under an independent recursive-descent reader of the published grammar (legal tags, UTF-16 string lengths, byte "
                 "lengths, counts equal to contents, class definition before instance, back-references only to earlier referable items numbered as the specification "
                 "prescribes), be consumed exactly, contain as many values as were written, and each parsed value must equal the neutral-node denotation of the Go value. "
-                "Because the reader shares no code with the library, errors the Go encoder and decoder have in common are visible."),
+                "Because the reader shares no code with the library, errors the Go encoder and decoder have in common are visible. Two enumerated sub-checks add the reference-clutter table (a marker string and a shared pointer before and after every kind of reference-counted item) and encoder reuse (Reset, mode switches and several messages through one encoder: each message must stand alone)."),
     level_note="The denotation rules (alias naming, anonymous struct = map, invalid UTF-8 string = bytes, complex = [re, im], time normalisation) are written from the library's documentation; a wrong rule would show as a failure on the unchanged tree, none is outstanding.",
     rule=("matrix: every leaf x position cell and all 15x15 specialised maps with 10/80 rapid-drawn values, both modes, Encode and Write; sequences: 1-5 values of random "
           "types written to one encoder without Reset, the last one optionally the very same value as the first. Non-trivial = output longer than one byte containing a "
@@ -169,7 +169,7 @@ PROPS["C02"] = dict(
     level_text=("A graph generator wires every pointer slot of 1-9 nodes to any node (or nil), interleaving items of every reference-counted kind. Oracle: encoding "
                 "terminates; the independent reader accepts the stream and its resolved graph is bisimilar to the original, so every back-reference points at the item "
                 "the encoder meant even when encoder and decoder share a numbering error; each distinct reachable object is defined exactly once; the library's decoder "
-                "returns a bisimilar graph with the same number of distinct nodes (aliasing preserved), into typed and interface{} destinations."),
+                "returns a bisimilar graph with the same number of distinct nodes (aliasing preserved), into typed and interface{} destinations. Node types also carry members that take a reference slot without being pointers (anonymous and empty structs, typed byte arrays, a shared pointer to an array of pointers), so a numbering error of either side shifts every later back-reference."),
     level_note="Graph sizes are bounded (<= 9 nodes); cyclic values are only encoded in reference mode (non-termination in simple mode is inherent).",
     rule=("rapid-drawn graphs over two node types with pointer, slice, map, array, *slice, *map and interface slots; 1 in 4 acyclic (DAG); clutter values of the enumerated "
           "kinds in interface slots. Non-trivial = the stream contains at least one r tag; classes has-cycle / has-sharing / clutter=<kind> are recorded. Distinct by (destination, graph text)."),
@@ -185,7 +185,7 @@ PROPS["C06"] = dict(
                 "digit strings, bytes, guids, ten date/time forms, lists and maps in alternative spellings, objects with extra/missing/reordered fields, maps for objects) is "
                 "decoded into every destination type at every position. Three oracles: a destination that can hold the denoted value exactly must end up holding exactly it; "
                 "one that clearly cannot must report an error (a wrong value with a nil error is the violation); and the outcome for one (token, type) must be the same in all "
-                "seven positions, which needs no expectation table and exposes a wrong entry in a dispatch table."),
+                "seven positions, which needs no expectation table and exposes a wrong entry in a dispatch table. Two further sub-checks: a reference-accounting probe (a string written after the token must be reachable under the index the grammar gives it) and entry independence (several object / map / list entries in one container must decode as each does alone)."),
     level_note="Where the statement does not settle a conversion (bool from int, string from double, time from int, ...) the expectation is 'unsettled' and only position independence is asserted; values inside the enumerated table are fixed boundary values, random values are covered by C01.",
     rule=("token-matrix: all token spellings x 48 destination types x {simple, reference} x 7 positions, enumerated; objects: class layouts x struct/map/interface destinations. "
           "Non-trivial = every case (each is a distinct (spelling, destination, mode) cell; spellings the encoder never emits are labelled in the class histogram). Distinct by cell text."),
@@ -200,7 +200,7 @@ PROPS["C04"] = dict(
     level_text=("For every corpus stream (serialization values, RPC requests and responses, JSON-RPC messages) all single-step mutations are enumerated and each mutant is decoded through "
                 "Unmarshal, a reader, Service.Handle, the client codec and the JSON-RPC codecs into rotating (quick) or all (thorough) destination types in both modes. The decode "
                 "runs in a worker process with a 4 GiB address-space limit: a panic is recovered and reported, the bytes allocated (runtime/metrics) must stay under 1 MiB + 256 x "
-                "input length, a hang trips the watchdog, and when the worker dies the input recorded in its side file is reported and a new worker continues behind it."),
+                "input length, a hang trips the watchdog, and when the worker dies the input recorded in its side file is reported and a new worker continues behind it. One sweep entry decodes under non-default decoder settings (StructTypeValue, interface-keyed maps) and the number vocabulary includes hostile exponents."),
     level_note="No legitimate decode comes within two orders of magnitude of the allocation bound; recursion depth is exercised up to a few hundred levels; inputs longer than a few hundred bytes are not generated.",
     rule=("mutations: per (entry, corpus stream) every truncation, single-byte deletion, substitution and insertion over a 48-byte alphabet, adjacent swaps, number replacements by hostile "
           "constants and structural repeats; random-bytes: rapid-drawn strings of up to 64 bytes biased to the tag alphabet. Non-trivial = a mutation set of a corpus stream (counted per set) or a "
